@@ -327,6 +327,27 @@ def run(ctx: Ctx, rs: RuleSet, tier: str):
              'of aligned Buildables are each compared on every path', 4)
   buildable_facets(ctx, rs, 'INDEP.buildable-facets')
 
+  # ---- a change of the callable leaves the tags to AddTag / RemoveTag
+  from fdlstatic.rules import c16
+  rule_f = 'FRAME.callable-change-keeps-tags'
+  rs.declare(rule_f, 'update_callable (how a ModifyValue of the callable is '
+             'applied) does not edit argument tags', 1)
+  uc = ctx.func('fiddle._src.mutate_buildable.update_callable')
+  _, muts = c16._tag_mutations(ctx, uc)
+  tag_calls = [c for c in ctx.calls(uc) if unparse(c.func).split('.')[-1] in (
+      'add_tag', 'remove_tag', 'set_tags', 'clear_tags',
+      'find_tags_from_annotations')]
+  bad = [m[1] for m in muts] + tag_calls
+  rs.check(not bad, rule_f, uc.qualname,
+           'no tag set is written: the diff\'s AddTag / RemoveTag operations '
+           'alone decide the tags of the result' if not bad else
+           f'`{unparse(bad[0])[:70]}` edits argument tags while the callable '
+           'is swapped: build_diff compares the tags of old and new, so tags '
+           'that update_callable adds on its own (e.g. from the new '
+           'callable\'s annotations) are never removed again and the patched '
+           'configuration keeps tags the target does not have',
+           ctx.loc(uc, bad[0] if bad else uc.node))
+
   # ---- memoizable values are "equal" only if aligned
   rule = 'DOM.aligned-or-equal'
   rs.declare(rule, 'for memoizable values only the alignment decides; '
@@ -347,6 +368,33 @@ def run(ctx: Ctx, rs: RuleSet, tier: str):
           all(g.dominated_by(r, {m}, labels=cfg_lib.NO_EXC) for r in rets) and
           all(r not in t_reach for r in other_rets) and
           all(r in t_reach for r in align_rets))
+  # non-memoizable leaves: identity answers before ==, so a leaf that is not
+  # equal to itself (NaN) is still unchanged when it is the same object
+  o_p, n_p = ae.params[1], ae.params[2]
+  id_ifs = [n for n in g.nodes() if g.kind[n] == 'if' and isinstance(
+      g.stmt[n].test, ast.Compare) and len(g.stmt[n].test.ops) == 1 and
+            isinstance(g.stmt[n].test.ops[0], ast.Is) and
+            {unparse(g.stmt[n].test.left),
+             unparse(g.stmt[n].test.comparators[0])} == {o_p, n_p}]
+  eq_rets = [n for n in rets if any(
+      isinstance(c, ast.Compare) and any(isinstance(o, (ast.Eq, ast.NotEq))
+                                         for o in c.ops)
+      for c in ast.walk(g.stmt[n].value))]
+  id_ok = bool(eq_rets) and all(
+      any(g.dominated_by(r, {m}, labels=cfg_lib.NO_EXC) for m in id_ifs)
+      for r in eq_rets) and all(
+          any(isinstance(g.stmt[x], ast.Return) and isinstance(
+              g.stmt[x].value, ast.Constant) and g.stmt[x].value.value is True
+              for x in g.reach([y for y, lab in g.succ[m] if lab == 'true'],
+                               labels=cfg_lib.NO_EXC)) for m in id_ifs)
+  rs.check(id_ok, rule, f'{ae.qualname}:identity-before-equality',
+           'for leaves `old is new` answers True before == is consulted'
+           if id_ok else
+           'the == comparison of two leaves is not preceded by an identity '
+           'test: a leaf that is not equal to itself (float(\'nan\'), which '
+           'copy.deepcopy keeps as the same object) is reported as modified, '
+           'so build_diff(cfg, deepcopy(cfg)) is not empty',
+           ctx.loc(ae, ae.node))
   rs.check(ok, rule, ae.qualname,
            'the memoizable test comes first; on its true branch the only '
            'result is the alignment lookup' if ok else
